@@ -286,6 +286,14 @@ func runC11(c *Ctx) {
 	// ---- (8) SUBDIR-REMAP-TOTAL
 	c11SubdirRemap(c, pkFI)
 
+	// ---- (9) shared rules on the code this property runs through: the image-level --path/--exclude-path filter must
+	// not depend on map iteration order (R-MAPORDER of C02, on package bufimage), and the image writer must report a
+	// failing Close of the (possibly compressing) output (R-CLOSE of C15, on package bufctl)
+	c.Rule("R-MAPORDER", "map iterations in package bufimage (image path filter, image construction) have order-insensitive effects", 5)
+	ruleMapOrderPkg(c, "R-MAPORDER", pkImg, map[string]bool{}, map[string]bool{})
+	c.Rule("R-CLOSE", "writers acquired by the controller are closed on every path and report their Close error on success", 2)
+	ruleClose(c, "R-CLOSE", []*packages.Package{pkCtl}, func(string) (bool, string) { return true, "" })
+
 	var pkgs []*packages.Package
 	for _, rel := range []string{"private/pkg/protoencoding", pkgProtodesc} {
 		if q := p.Pkg(rel); q != nil {
